@@ -20,6 +20,11 @@ Oracle (the statement executed on the IMPLEMENTATION, every public class and nes
  (m) hyper-parameter values that are numpy floating scalars (np.float64, as an np.linspace grid hands out) through
      set_params / module__name / attribute assignment / the constructor: reported as given, set_params(**get_params())
      a no-op, clone / deepcopy / pickle work and every copy behaves like the twin that received Python floats
+ (n) a stream of ZERO-row (shape (0, d)) and ONE-row batches consumed by an ALREADY TRAINED estimator in the idiom
+     `model = model.partial_fit(batch)` (also fit / predict): every call that returns hands back the estimator itself,
+     the caller's tiny arrays can be overwritten afterwards, deepcopy / pickle twins taken before and after the tiny
+     batches continue identically, set_params(**get_params()) stays a no-op, an ordinary batch afterwards is learned
+     exactly as by a reference that received private copies
 Tie: `params run` op sequences (get/set/attr/setattr, valid and malformed values) on the
 eight elementary classes against the Lean model; the Lean class table against the table
 re-extracted from the source (inspect.signature, default-instance get_params, AST of
@@ -41,9 +46,9 @@ from .. import gen, specs
 from ..common import q2s, mat_q, vec_q, run_driver
 from ..impl import make, quiet, exc_enum, full_snapshot, eq_snap, params_tree
 
-RULE = ("cases = (subject = public class or nesting, sub-check a..m, hyper-parameter spec(s), data stream, history of "
+RULE = ("cases = (subject = public class or nesting, sub-check a..n, hyper-parameter spec(s), data stream, history of "
         "fit/partial_fit/predict calls, copy point / interleaving / mutation / route by which values reach the estimator); a case is non-trivial when at least one "
-        "training call committed >= 2 categories (b, c, e, h, i, j, k, l, m); protocol-only cases (a, d, g) and tie lines with >= 2 commands count as non-trivial; "
+        "training call committed >= 2 categories (b, c, e, h, i, j, k, l, m, n); protocol-only cases (a, d, g) and tie lines with >= 2 commands count as non-trivial; "
         "distinct by hash of all of it")
 
 BETA_BASES = ["FuzzyART", "HypersphereART", "EllipsoidART", "ART2A"]
@@ -1549,6 +1554,143 @@ def chk_m_numpy_scalars(c: Case):
     c.ctx.cov.case(("m", S.name, spec1, spec2, route, tuple(sorted(given)), ops_brief(ops)), nontrivial(want))
 
 
+# ================================================================ (n) zero-row / one-row batches on a trained estimator
+
+
+ENTRY = {"fit": "fit", "pfit": "partial_fit", "pred": "predict"}
+
+
+def tiny_batch(S: Subject, r: random.Random, spec: dict, n: int) -> Data:
+    """a batch of n in {0, 1} rows of the right width(s): what a stream hands over when a window happens to be empty
+    (shape (0, d), labels of shape (0,)) or holds a single sample"""
+    return S.data(r, spec, 2).cut(0, n)
+
+
+def chk_n_tiny_batches(c: Case):
+    """(n) the statement on a stream whose mini-batches have ZERO rows (shape (0, d)) or ONE row, consumed by an
+    estimator that has ALREADY been trained, in the idiom `model = model.partial_fit(batch)` (also fit / predict):
+      (f) every training call that returns normally returns the estimator it was called on, so the stream can go on;
+      (h) the batches are the caller's own arrays and are overwritten in place right after each call;
+      (i) a deepcopy / pickle twin taken before the tiny batches, and one taken after them, continue identically;
+      (b) set_params(**get_params()) after the tiny batches is a no-op;
+    `ref` is an estimator constructed from the same spec that receives private copies of every batch and no copy /
+    mutation / set_params: all of the above must behave exactly like it, call by call and on a closing ordinary batch.
+    A tiny call that RAISES (sklearn's input validation rejects zero samples for the supervised classes) is only
+    required to raise alike on every twin."""
+    S, r = c.S, c.rng("n")
+    if not (S.has_pfit or S.has_pred):
+        c.ctx.cov.hit("n:class-has-no-partial_fit-and-no-predict")      # BARTMAP: no stream to speak of
+        return
+    spec = S.spec(r)
+    est, ref = c.build(spec, "n"), c.build(spec, "n")
+    if est is None or ref is None:
+        return
+    pre = gen_ops(S, r, spec, r.randint(1, 2))
+    pre_out = run_ops(S, est, pre)
+    if any(o[0] == "exc" for o in pre_out) or not eq_snap(pre_out, run_ops(S, ref, pre)):
+        c.ctx.cov.hit("n:earlier-history-raised")
+        return
+    # ---- the stream: mostly partial_fit, some predict / fit, rows in {0, 1}; then one ordinary batch
+    kinds = (["pfit"] * 4 if S.has_pfit else []) + (["pred"] if S.has_pred else []) + (["fit"] if S.has_fit else [])
+    tiny = []
+    for _ in range(r.randint(3, 5)):
+        tiny.append((r.choice(kinds), tiny_batch(S, r, spec, r.choice([0, 0, 1]))))
+    if S.has_pfit and not any(op == "pfit" and D.n() == 0 for op, D in tiny):
+        tiny[r.randrange(len(tiny))] = ("pfit", tiny_batch(S, r, spec, 0))
+    closing = [(("pfit" if S.has_pfit else "fit"), S.data(r, spec, r.randint(2, S.nmax)))]
+    if S.has_pred:
+        closing.append(("pred", S.data(r, spec, r.randint(2, S.nmax))))
+    how = r.choice(["deepcopy", "pickle"])
+    mk = (lambda e: copy.deepcopy(e)) if how == "deepcopy" else (lambda e: pickle.loads(pickle.dumps(e)))
+    rep = {"spec": spec, "earlier_ops": ops_replay(pre), "tiny_ops": ops_replay(tiny), "closing_ops": ops_replay(closing),
+           "tiny_shapes": [[op] + [list(a.shape) for a in D.arrays()] for op, D in tiny],   # an empty list loses (0, d)
+           "copy": how, "idiom": "model = model.partial_fit(batch); every batch has 0 or 1 rows and the estimator is already trained"}
+    o = outcome(lambda: mk(est))
+    if o[0] == "exc":
+        c.violation(f"{S.cls}.{how}:raises", f"{how} after {ops_brief(pre)} raised {o[1]}", rep)
+        return
+    twin = o[1]
+    outs_ref = run_ops(S, ref, tiny)
+    outs_twin = run_ops(S, twin, tiny)
+    # ---- the streaming run: `model` is whatever the previous call handed back
+    model, live, outs_est, broke = est, [], [], False
+    for k, (op, D) in enumerate(tiny):
+        L = D.copy()
+        live.append(L)
+        if model is not est:
+            break
+        o = outcome(lambda: (S.fit if op == "fit" else S.pfit if op == "pfit" else S.pred)(model, L))
+        tag = f"n:{op}:{D.n()}-row" + ("s" if D.n() != 1 else "")
+        if o[0] == "exc":
+            c.ctx.cov.hit(f"{tag}:raised:{o[1]}")
+            outs_est.append(("exc", o[1]) if op == "pred" else ("exc", o[1], snapshot(est)))   # as apply_op
+        elif op == "pred":
+            c.ctx.cov.hit(f"{tag}:ok")
+            p = o[1]
+            outs_est.append(("ok", [np.array(t).copy() for t in p] if isinstance(p, (list, tuple)) else np.array(p).copy()))
+        else:
+            c.ctx.cov.hit(f"{tag}:ok")
+            outs_est.append(("ok", o[1] is est, snapshot(est)))
+            if o[1] is not est:
+                c.ctx.cov.hit("n:stream-broken")
+                c.violation(f"{S.cls}.{ENTRY[op]}:returns-not-self",
+                            f"{ENTRY[op]} on a batch of {D.n()} row(s) (call {k} of the stream, estimator already trained by "
+                            f"{ops_brief(pre)}) returned {type(o[1]).__name__} instead of the estimator: "
+                            "`model = model.partial_fit(batch)` loses the model", rep)
+                broke = True
+                model = o[1]
+        before = snapshot(est)
+        for M in live:
+            mutate(M, r)
+        if not eq_snap(before, snapshot(est)):
+            c.violation(f"{S.cls}.{ENTRY[op]}:state-aliases-caller-array",
+                        f"overwriting the {D.n()}-row arrays passed to call {k} ({op}) changed the trained model "
+                        f"(fields {snap_paths(before, snapshot(est))[:4]})", rep)
+            return
+    if broke:
+        return
+    d = first_diff(outs_twin, outs_ref)
+    if d is not None:
+        c.violation(f"{S.cls}.{how}:continues-differently",
+                    f"{how} twin of a trained estimator differs from the original at call {d} of a stream of 0/1-row batches "
+                    f"({tiny[d][0]}, {tiny[d][1].n()} row(s))", rep)
+        return
+    d = first_diff(outs_est, outs_ref)
+    if d is not None:
+        c.violation(f"{S.cls}.{ENTRY[tiny[d][0]]}:depends-on-earlier-training-array",
+                    f"call {d} of a stream of 0/1-row batches ({tiny[d][0]}, {tiny[d][1].n()} row(s)) differs from a twin whose "
+                    "earlier batches were not overwritten by the caller", rep)
+        return
+    # ---- afterwards: parameters round-trip, a copy taken now, and all of them on an ordinary batch
+    if S.sklearn:
+        before = ptree(est)
+        o = outcome(lambda: est.set_params(**dict(est.get_params())))
+        c.ctx.cov.hit("n:roundtrip-after-the-stream")
+        if o[0] == "exc" or o[1] is not est or not eq_snap(before, ptree(est)):
+            c.violation(f"{S.cls}.set_params:roundtrip-after-tiny-batches",
+                        "set_params(**get_params()) after a stream of 0/1-row batches "
+                        + (f"raised {o[1]}" if o[0] == "exc" else "did not return the estimator" if o[1] is not est
+                           else "changed the hyper-parameters"), rep)
+            return
+    o = outcome(lambda: mk(est))
+    if o[0] == "exc":
+        c.violation(f"{S.cls}.{how}:raises", f"{how} after a stream of 0/1-row batches raised {o[1]}", rep)
+        return
+    late = o[1]
+    want = run_ops(S, ref, closing)
+    chk_f_returns_self(c, want, closing, spec)
+    for name, e in (("the streaming estimator", est), (f"the {how} twin taken before the tiny batches", twin),
+                    (f"the {how} twin taken after the tiny batches", late)):
+        d = first_diff(run_ops(S, e, closing), want)
+        if d is not None:
+            c.violation(f"{S.cls}.{ENTRY[closing[d][0]]}:differs-after-tiny-batches",
+                        f"after a stream of 0/1-row batches {name} differs from the reference on an ordinary batch "
+                        f"(call {d}: {closing[d][0]}, {closing[d][1].n()} rows)", rep)
+            break
+    c.ctx.cov.hit(f"n:stream-completed:{how}")
+    c.ctx.cov.case(("n", S.name, spec, ops_brief(pre), ops_brief(tiny), ops_brief(closing), how), nontrivial(pre_out + want))
+
+
 # ================================================================ class table re-extracted from the source
 
 
@@ -1939,10 +2081,10 @@ def _as_cmp(v):
 
 SUBCHECKS = [("a", chk_a_get_params), ("b", chk_b_roundtrip), ("c", chk_c_twins), ("c-used", chk_c_used_twins), ("d", chk_d_reject),
              ("e", chk_e_attrs), ("g", chk_g_clone), ("h", chk_h_ownership), ("i", chk_i_copies), ("j", chk_j_interleave)]
-# situations added for seeded changes C05k / C15k / C19k (shallow-copy checkpoints, a wrapper's own parameters changed
-# after construction, numpy floating scalars as values); they run on the first EXTRA_ROUNDS indices of every subject
+# situations added for seeded changes C05k / C15k / C19k / C19l (shallow-copy checkpoints, a wrapper's own parameters changed
+# after construction, numpy floating scalars as values, zero-row / one-row batches on a trained estimator); they run on the first EXTRA_ROUNDS indices of every subject
 EXTRA_ROUNDS_QUICK = 6
-EXTRA_SUBCHECKS = [("k", chk_k_shallow_checkpoint), ("l", chk_l_own_params), ("m", chk_m_numpy_scalars)]
+EXTRA_SUBCHECKS = [("k", chk_k_shallow_checkpoint), ("l", chk_l_own_params), ("m", chk_m_numpy_scalars), ("n", chk_n_tiny_batches)]
 NEEDS_SKLEARN = {"a", "b", "c", "c-used", "d", "e", "g", "l", "m"}
 
 
@@ -1954,7 +2096,7 @@ def chk_replace_and_nested(ctx):
     import copy
     for i in range(ctx.scale(24, 200)):
         r = gen.rng_for(ctx.seed, "C19/replace+nested", i)
-        kind = ["SimpleARTMAP", "ARTMAP.module_a", "ARTMAP.module_b", "DualVigilanceART"][i % 4]
+        kind = ["SimpleARTMAP", "ARTMAP.module_a", "ARTMAP.module_b", "DualVigilanceART", "BARTMAP.module_a", "BARTMAP.module_b"][i % 6]
         rho_old, rho_new0, rho_new = r.choice([0.125, 0.25]), r.choice([0.375, 0.5]), r.choice([0.75, 0.875])
         mk = lambda rho: FuzzyART(rho, 2.0 ** -10, 1.0)   # noqa
         old, new = mk(rho_old), mk(rho_new0)
@@ -1964,13 +2106,26 @@ def chk_replace_and_nested(ctx):
             B, A, key = ARTMAP(old, mk(0.5)), ARTMAP(mk(rho_new), mk(0.5)), "module_a"
         elif kind == "ARTMAP.module_b":
             B, A, key = ARTMAP(mk(0.5), old), ARTMAP(mk(0.5), mk(rho_new)), "module_b"
+        elif kind == "BARTMAP.module_a":
+            from artlib.biclustering.BARTMAP import BARTMAP
+            B, A, key = BARTMAP(old, mk(0.5), 0.0), BARTMAP(mk(rho_new), mk(0.5), 0.0), "module_a"
+        elif kind == "BARTMAP.module_b":
+            from artlib.biclustering.BARTMAP import BARTMAP
+            B, A, key = BARTMAP(mk(0.5), old, 0.0), BARTMAP(mk(0.5), mk(rho_new), 0.0), "module_b"
         else:
             B, A, key = DualVigilanceART(old, 0.0625), DualVigilanceART(mk(rho_new), 0.0625), "base_module"
         kw = {key: new, key + "__rho": rho_new}
         if r.random() < 0.5:
             kw = dict(reversed(list(kw.items())))
+        read_first = r.random() < 0.6
+        if read_first:
+            # a read-only look at the parameters before re-configuring (what any grid search / repr / clone does first)
+            with quiet():
+                B.get_params(deep=True)
+                B.get_params(deep=False)
+            ctx.cov.hit("replace+nested:get_params-read-before-set_params")
         rep = {"kind": kind, "set_params": {k: (v if isinstance(v, float) else "FuzzyART(rho=%s)" % rho_new0) for k, v in kw.items()},
-               "rho_old": rho_old}
+               "rho_old": rho_old, "get_params_called_first": read_first}
         sig = f"{kind.split('.')[0]}.set_params:replace-sub-estimator-and-nested-value"
         try:
             with quiet():
@@ -1987,7 +2142,12 @@ def chk_replace_and_nested(ctx):
         y = gen.labels(r, 12, 3)
         try:
             with quiet():
-                if kind == "DualVigilanceART":
+                if kind.startswith("BARTMAP"):
+                    M = np.array([[((a_ % 3) * 0.3 + (b_ % 2) * 0.35 + 0.05 * ((a_ * 7 + b_ * 3) % 5) / 5) for b_ in range(8)] for a_ in range(8)])
+                    A.fit(M); B.fit(M)
+                    same = (np.asarray(A.row_labels_).tolist() == np.asarray(B.row_labels_).tolist()
+                            and np.asarray(A.column_labels_).tolist() == np.asarray(B.column_labels_).tolist())
+                elif kind == "DualVigilanceART":
                     A.fit(X); B.fit(X)
                     same = A.labels_.tolist() == B.labels_.tolist()
                 elif kind.startswith("ARTMAP"):
@@ -2011,8 +2171,8 @@ def prepare(ctx):
     __getattr__ / __setattr__ / get_params / set_params are re-translated to Lean on every run (harness/artv/qtrans.py)
     and proved equal to the parameter-protocol model the C19 theorems are about"""
     from .gen_tie import gen_prepare, extra_theorems
-    from .. import qtrans
-    gen_prepare(ctx, extra_theorems("qtrans"), qtrans.COVERS)
+    from .. import qtrans, q2trans
+    gen_prepare(ctx, extra_theorems("qtrans") + extra_theorems("q2trans"), qtrans.COVERS + "; " + q2trans.COVERS)
 
 def run(ctx):
     ctx.trusted += ["Python object graphs (deepcopy, pickle, sklearn.clone, `fit(...) is est`, instance independence, "
